@@ -240,9 +240,13 @@ pub fn build_under_test(case: &Value, spec: &crate::spec::Spec, obs: &mut crate:
   crate::spec::share_cached_instances(true);
   let b = crate::spec::build_box(spec);
   let shared = crate::spec::shared_cached_hits();
+  crate::spec::note_node_hits();
   crate::spec::share_cached_instances(false);
   if shared > 0 {
     obs.class("cached_instance_shared_between_places");
+  }
+  if crate::spec::shared_node_hits_last() > 0 {
+    obs.class("stateful_node_shared_between_places");
   }
   b
 }
